@@ -96,10 +96,27 @@ def run(tier, seed):
                 "by the schemaless and container writers and read back; every value lies in the image of the model generator")
     run.lean(TARGETS, THEOREMS)
     reqs, meta = [], []
-    for i in range(scale(tier, 500)):
+    # every logicalType annotation on every underlying type (an annotation that does not belong to the type is
+    # ignored by the codec, so the value must be an ordinary datum of the underlying type), bare / as a field / in a union
+    LOGICALS = ["date", "time-millis", "time-micros", "timestamp-millis", "timestamp-micros", "local-timestamp-millis",
+                "local-timestamp-micros", "uuid", "decimal", "no-such-logical-type"]
+    directed = []
+    for under in ("int", "long", "string", "bytes"):
+        for lt in LOGICALS:
+            base = {"type": under, "logicalType": lt}
+            if lt == "decimal":
+                base.update(precision=5, scale=2)
+            directed += [base, {"type": "record", "name": "LT", "fields": [{"name": "v", "type": base}]}, ["null", base]]
+    nd = len(directed) if tier != "quick" else 40
+    rsel = random.Random(seed * 31 + 20)
+    directed = rsel.sample(directed, nd)
+    for i in range(scale(tier, 500) + len(directed)):
         g = gen.Gen(seed * 20000003 + i, logical=(i % 3 == 0), bytes_defaults=False, max_depth=2 if i % 2 else 3)
         try:
-            s, ctx = g.top_schema()
+            if i < len(directed):
+                s, ctx = copy.deepcopy(directed[i]), gen.Ctx()
+            else:
+                s, ctx = g.top_schema()
             parse_schema(copy.deepcopy(s))
         except Exception:
             continue
